@@ -438,5 +438,126 @@ class ShellListWrap(Bounded):
         return True
 
 
+class MsbuildSolutionRun(Bounded):
+    """The MSBuild backend itself (real builtins and msbuild.write, run in-process; it needs no Windows tool): a build
+    script with copy_file steps (one source copied to two destinations, sources with equal base names), a command and
+    an alias is written twice into the same build directory: every project of proj.sln has its own GUID and its own
+    project file whose ProjectGuid is the one in the solution, every dependency names a project of the solution, and
+    the GUIDs of the second run (a regeneration) are those of the first."""
+    target = 'bfg9000/builtins/copy_file.py::msbuild_copy_file'
+    properties = ('C20',)
+    reason = 'whole builtin layer plus the msbuild writer over two runs: runtime contract only'
+    SCRIPTS = {
+        'two-destinations': [('copy_file', ('debug/settings.ini', 'settings.ini'), {}),
+                             ('copy_file', ('release/settings.ini', 'settings.ini'), {}),
+                             ('copy_file', (), {'file': 'a.txt'})],
+        'equal-base-names': [('copy_file', (), {'file': 'a.txt'}), ('copy_file', (), {'file': 'data/a.txt'}),
+                             ('copy_file', ('other/a.txt', 'data/a.txt'), {})],
+    }
+
+    def native_inputs(self, case, alphabet, maxlen, rng, extra=0):
+        for k in self.SCRIPTS:
+            yield {'script': k}
+
+    def native_check(self, case, raw):
+        import os, re as _re, shutil, tempfile
+        from bfg9000.build_inputs import BuildInputs
+        from bfg9000.builtins import builtin, init as builtin_init
+        from bfg9000.environment import Environment
+        from bfg9000.path import InstallRoot, Path, Root
+        from bfg9000.backends.msbuild import writer as msbuild
+        builtin_init()
+        top = tempfile.mkdtemp(prefix='pyvc_sln_')
+        cwd = os.getcwd()
+        try:
+            src, bld = top + '/src', top + '/b'
+            os.makedirs(src)
+            os.makedirs(bld)
+            runs = []
+            for attempt in range(2):
+                env = Environment(Path('/bfgdir', Root.absolute), 'msbuild', None, Path(src, Root.absolute), Path(bld, Root.absolute))
+                env.finalize({InstallRoot.prefix: Path('/prefix', Root.absolute)}, (False, False), False)
+                build = BuildInputs(env, Path('build.bfg', Root.srcdir))
+                ctx = builtin.BuildContext(env, build, None)
+                ctx.path_stack.append(builtin.BuildContext.PathEntry(build.bfgpath))
+                ctx['project']('proj')
+                for fn, args, kwargs in self.SCRIPTS[raw['script']]:
+                    ctx[fn](*args, **kwargs)
+                stamp = ctx['command']('stamp', cmd=['echo', 'stamp'])
+                ctx['alias']('everything', [stamp])
+                os.chdir(bld)
+                try:
+                    msbuild.write(env, build)
+                except Exception as e:      # noqa
+                    return self.fail(case, raw, 'solution_is_written', run=attempt, error=repr(e)[:300])
+                finally:
+                    os.chdir(cwd)
+                text = open(bld + '/proj.sln').read()
+                projs = _re.findall(r'^Project\("([^"]*)"\) = "([^"]*)", "([^"]*)", "([^"]*)"$', text, _re.M)
+                guids = [g for _, _, _, g in projs]
+                files = [f for _, _, f, _ in projs]
+                nsteps = len(self.SCRIPTS[raw['script']]) + 2
+                if len(projs) != nsteps:
+                    return self.fail(case, raw, 'one_project_per_step', run=attempt, projects=[p[1] for p in projs], steps=nsteps)
+                if len(set(guids)) != len(guids):
+                    return self.fail(case, raw, 'project_guids_unique', run=attempt, projects={p[1]: p[3] for p in projs})
+                if len(set(files)) != len(files):
+                    return self.fail(case, raw, 'project_files_distinct', run=attempt, files=files)
+                for _, name, f, g in projs:
+                    body = open(os.path.join(bld, f.replace('\\', '/'))).read()
+                    m = _re.search(r'<ProjectGuid>(.*)</ProjectGuid>', body)
+                    if not m or m.group(1) != g:
+                        return self.fail(case, raw, 'project_file_carries_the_guid_of_the_solution', project=name)
+                for l, r_ in _re.findall(r'^\t\t(\{[^}]*\}) = (\{[^}]*\})$', text, _re.M):
+                    if l != r_ or l not in guids:
+                        return self.fail(case, raw, 'dependency_refers_to_a_project_of_the_solution', run=attempt, dep=l)
+                runs.append({p[1]: p[3] for p in projs})
+            if runs[0] != runs[1]:
+                return self.fail(case, raw, 'guid_stable_across_regeneration', first=runs[0], second=runs[1])
+            return True
+        finally:
+            os.chdir(cwd)
+            shutil.rmtree(top, ignore_errors=True)
+
+
+class NinjaWindowsWords(Bounded):
+    """Command words written by the Ninja writer with the Windows shell (what build.ninja contains on Windows): plain
+    strings and paths below a variable root whose remainder needs quoting.  The text is expanded by the Ninja rules
+    (`$$`, `${srcdir}`) and read by the MS C runtime fold: exactly the given words, each as one argument."""
+    target = 'bfg9000/backends/ninja/syntax.py::Writer.write'
+    properties = ('C20',)
+    reason = 'two-layer reading (ninja expansion, then the CRT fold) of concrete writer output: runtime contract only'
+    SUFFIXES = ['plain.c', 'my file.c', 'a&b.c', 'sub dir/x y.c', 'q"uote.c', 'tr ail\\', 'do$llar.c']
+    STRINGS = ['plain', 'two words', 'semi;colon', 'a"b', 'back\\slash end\\', '']
+
+    def native_inputs(self, case, alphabet, maxlen, rng, extra=0):
+        for sfx in self.SUFFIXES:
+            for st in self.STRINGS:
+                yield {'suffix': sfx, 'string': st}
+
+    def native_check(self, case, raw):
+        import io
+        import bfg9000.backends.ninja.syntax as NS
+        import bfg9000.shell.windows as wshell
+        from bfg9000.platforms.windows import WindowsPath
+        from bfg9000.path import Root
+        from specs.ninja_eval import _expand
+        from specs.crt import crt_args
+        srcdir = 'C:\\src dir'
+        out = NS.Writer(io.StringIO(), {Root.srcdir: NS.Variable('srcdir'), Root.builddir: None}, wshell)
+        try:
+            p = WindowsPath(raw['suffix'], Root.srcdir)
+        except ValueError:
+            return None
+        out.write_shell([raw['string'], p, 'last'], NS.Syntax.shell)
+        text = out.stream.getvalue()
+        line = _expand(text, lambda name: {'srcdir': srcdir}[name])
+        got = crt_args(line)
+        want = [raw['string'], srcdir + '\\' + p.suffix.replace('/', '\\'), 'last']
+        if got != want:
+            return self.fail(case, raw, 'crt_reads_back_exactly_the_words', written=text, expanded=line, got=got, expected=want)
+        return True
+
+
 def registry():
-    return [QuoteInfo(), UuidGetItem(), SetUuid(), WinJoinSplit(), UuidRuns(), SolutionFile(), ShellListWrap()]
+    return [QuoteInfo(), UuidGetItem(), SetUuid(), WinJoinSplit(), UuidRuns(), SolutionFile(), ShellListWrap(), MsbuildSolutionRun(), NinjaWindowsWords()]
